@@ -267,6 +267,16 @@ def rule_threading(ck):
                                 used = True
             ck.require(used, "C09.R3", f, st if st is not None else c, ok=f"the returned {want} is carried on",
                        bad=f"the accumulator returned by the call is dropped: objects registered by the callee are forgotten", sink=f"{f.qual}:{nm}:rebind")
+        # a restore helper that loads nested objects extends the accumulator: its result may not be thrown away
+        for node, c in calls_in(fl):
+            nm = call_name(c)
+            if nm in RESTORE_FUNCS and nm != f.name and node.kind == "stmt" and isinstance(node.stmt, ast.Expr) and node.stmt.value is c:
+                helper = repo.method(f.cls, nm, optional=True)
+                extends = helper is not None and any(call_name(x) in ("_build_from_id", "_from_registry") for _, x in calls_in(flow_of(helper)))
+                n += 1
+                ck.require(not extends, "C09.R3", f, c, ok="the helper loads no nested object",
+                           bad=f"the result of {nm}(...) is dropped although the helper loads nested objects through _build_from_id: the objects it registered in "
+                               f"loaded_dict are forgotten by the caller, and an object referenced from two places is built twice (no longer shared)", sink=f"{f.qual}:{nm}:rebind")
         if f.name in ("_to_dict", "_from_dict"):
             rets = [x for x in fl.cfg.nodes if x.kind == "return"]
             ck.require(bool(rets) and all(p_.kind in ("return", "raise") for p_ in fl.cfg.exit.pred), "C09.R3", f, f.qual, ok="always returns", bad=f"{f.qual} can fall off the end without returning (object, accumulator)",
